@@ -331,6 +331,14 @@ impl Server {
             }
         }
         
+        #[cfg(ferrous_verif)]
+        crate::verif::register(crate::verif::Registry {
+            storage: Arc::clone(&storage),
+            blocking: Arc::clone(&blocking_manager),
+            rdb: Some(Arc::clone(&rdb_engine)),
+            pubsub: Arc::clone(&pubsub),
+        });
+        
         Ok(Server {
             listener,
             connections,
@@ -372,6 +380,9 @@ impl Server {
         
         loop {
             let mut did_work = false;
+            
+            #[cfg(ferrous_verif)]
+            crate::verif::loop_top();
             
             // Process wake-up queue first (very fast, lock-free)
             did_work |= self.process_wakeups()?;
@@ -487,6 +498,12 @@ impl Server {
             }
         };
         
+        #[cfg(ferrous_verif)]
+        crate::verif::log("wake", wakeup.conn_id, vec![
+            RespFrame::from_bytes(wakeup.key.clone()),
+            match &value { Some(v) => RespFrame::from_bytes(v.clone()), None => RespFrame::null_bulk() },
+        ], format!("db={}", wakeup.db));
+        
         // Critical fix: Only proceed if we actually got data
         // This prevents race conditions when multiple clients wake up simultaneously
         if let Some(popped_value) = value {
@@ -508,6 +525,9 @@ impl Server {
                     
                     // Return connection to authenticated state
                     conn.state = ConnectionState::Authenticated;
+                    
+                    #[cfg(ferrous_verif)]
+                    crate::verif::log("served", wakeup.conn_id, vec![response], String::new());
                 }
                 Ok(())
             }) {
@@ -536,6 +556,9 @@ impl Server {
                     
                     // Return to authenticated state
                     conn.state = ConnectionState::Authenticated;
+                    
+                    #[cfg(ferrous_verif)]
+                    crate::verif::log("timeout", conn_id, vec![], String::new());
                 }
                 Ok(())
             });
@@ -767,11 +790,16 @@ impl Server {
                 }
             }
             
+            #[cfg(ferrous_verif)]
+            let mut verif_guard = crate::verif::CmdGuard::new(id, &frame);
+            
             let response = if let Some(sync_resp) = sync_response {
                 sync_resp
             } else {
                 self.process_frame(frame, id)?
             };
+            #[cfg(ferrous_verif)]
+            verif_guard.done(&response);
             responses.push(response);
         }
         
